@@ -1,7 +1,7 @@
 (* C20 — Quorum indexer medians and metrics follow their definition.
    Only theorem statements, each closed by [exact <lemma>], non-vacuity examples, Print Assumptions. *)
 From Coq Require Import NArith List Permutation.
-From LV Require Import model.VecIndex model.QuorumIdx spec.QuorumSpec spec.FcSpec proofs.FcSpecFast proofs.QuorumProofs proofs.VecMain proofs.QuorumGraph.
+From LV Require Import model.VecIndex model.QuorumIdx spec.QuorumSpec spec.FcSpec proofs.FcSpecFast proofs.QuorumProofs proofs.FcSpecFacts proofs.VecMain proofs.QuorumGraph.
 Import ListNotations.
 Local Open Scope N_scope.
 
@@ -59,6 +59,24 @@ Theorem C20_observation_from_graph : forall n o a, wf_stream n o -> indexed o a 
   obs_clock n (merged (index_all n o) a) = map obs_of_spec (merged_spec n (dag_of o) a).
 Proof. exact obs_clock_graph. Qed.
 
+(* Round 2, end to end over an event stream: events of a well-formed stream o are processed (item
+   (k, id, self): ProcessEvent(id, self) was called when the first k events were indexed); the medians
+   reported afterwards are the quorum medians of the rows built from the GRAPH observations (gobs =
+   fork -> 2^31-2, else highest seq among the ancestors-or-self) of the latest processed event per creator *)
+Theorem C20_medians_from_graph : forall diff ws n o ps,
+  wf_stream n o -> length ws = n -> 0 < total_weight ws -> pitems_ok o ps ->
+  exists st meds st', qrun diff ws (quorum_of ws) n (h_of n o ps) = Some st /\
+    qi_medians ws (quorum_of ws) st = Some (meds, st') /\ length meds = n /\
+    forall v, (v < n)%nat ->
+      nth v meds 0 = median_spec ws (quorum_of ws) (grow n o ps v) /\
+      is_quorum_median ws (quorum_of ws) (grow n o ps v) (nth v meds 0).
+Proof. exact medians_from_graph. Qed.
+(* "a detected fork counts as the maximal observation" holds when every seq is below 2^31-2 *)
+Theorem C20_fork_obs_is_maximal : forall n o a v,
+  wf_stream n o -> (forall e, In e o -> eseq e < FORKSEQ) -> (v < n)%nat ->
+  nth v (gobs n o a) 0 <= FORKSEQ /\ (nth v (gobs n o a) 0 = FORKSEQ <-> SeesFork (dag_of o) a v).
+Proof. exact fork_obs_is_maximal. Qed.
+
 (* non-vacuity: a 4-validator history (weights 3,2,2,1, quorum 6) with a fork observation, a
    self event, clean and dirty reads; the hypotheses of the theorems hold and the values are non-trivial *)
 Definition ex_ws : list N := [3; 2; 2; 1].
@@ -91,3 +109,5 @@ Print Assumptions C20_medians.
 Print Assumptions C20_metric.
 Print Assumptions C20_metric_wraps.
 Print Assumptions C20_observation_from_graph.
+Print Assumptions C20_medians_from_graph.
+Print Assumptions C20_fork_obs_is_maximal.
